@@ -1,5 +1,6 @@
 import BigDec.Model.ToF64
 import BigDec.Model.Inverse
+import BigDec.Model.InvGuess
 import BigDec.Spec.RoundCert
 import BigDec.Spec.Div
 import BigDec.Spec.Exact
@@ -47,7 +48,14 @@ def handle (op : String) (args : List String) (impl : String) : Verdict :=
               if Spec.valueCmp ⟨e.int.natAbs, e.scale⟩ ⟨7, 1⟩ != .gt then ""
               else if Spec.valueCmp ⟨e.int.natAbs, e.scale⟩ ⟨94, 2⟩ != .gt then "+guess-beyond-70-percent"
               else if Spec.valueCmp ⟨e.int.natAbs, e.scale⟩ ⟨999, 3⟩ != .gt then "+guess-beyond-94-percent"
-              else "+guess-beyond-99.9-percent"),
+              else "+guess-beyond-99.9-percent")
+          -- the model of make_inv_guess (main path, bit counts up to 1074) against the real guess handed over by the hook
+          ++ (let b := if a.int == 0 then 0 else a.int.natAbs.log2 + 1
+              if b ≤ 1074 then
+                (match invGuessMain b a.scale with
+                 | some mg => if Spec.valueEq mg g then "" else "+guess-model-differs"
+                 | none => "+guess-model-none")
+              else "+guess-backup-path"),
         trivial := false }
     | _, _, _, _, _ => badInput "inv args"
   | "oneover", [form, a, guess] =>
